@@ -92,6 +92,7 @@ type CallsiteClause struct {
 	CallText string
 	Req      *Clause
 	Stmt     bool // "at": the text is the beginning of a statement; the clause is proved just before it and then assumed
+	Lemma    bool // "at ... lemma[..]": a proof step only; if its statement is gone or it cannot be evaluated it is dropped
 }
 
 // ClosureContract: postconditions of a function literal of the function (matched by the beginning of its source text). The
@@ -568,8 +569,12 @@ func (cs *Contracts) loadFile(path, pkgPath string) error {
 			callText := strings.ReplaceAll(rest[1:1+j], "\\\"", "\"")
 			rest = strings.TrimSpace(rest[2+j:])
 			kwd := "requires"
+			isLemma := false
 			if l.kw == "at" {
 				kwd = "assert"
+				if strings.HasPrefix(rest, "lemma") {
+					kwd, isLemma = "lemma", true
+				}
 			}
 			if !strings.HasPrefix(rest, kwd) {
 				return fmt.Errorf("%s: %s needs %s", l.where, l.kw, kwd)
@@ -578,7 +583,7 @@ func (cs *Contracts) loadFile(path, pkgPath string) error {
 			if err != nil {
 				return err
 			}
-			cc := &CallsiteClause{CallText: callText, Req: c, Stmt: l.kw == "at"}
+			cc := &CallsiteClause{CallText: callText, Req: c, Stmt: l.kw == "at", Lemma: isLemma}
 			if curBeh != nil {
 				curBeh.Callsites = append(curBeh.Callsites, cc)
 			} else {
